@@ -551,9 +551,9 @@ class kLeastAbsErrors(pathmodel.AbstractPathModelDAG):
 
         self.check_is_solved()
 
-        # sum of edge errors
+        # sum of the (scaled) edge errors, i.e. the objective the model minimizes
         edge_errors = self.get_solution()["edge_errors"]
-        return sum(edge_errors.values())
+        return sum(error * self.edge_error_scaling.get(edge, 1) for edge, error in edge_errors.items())
     
     def get_lowerbound_k(self):
 
